@@ -59,6 +59,8 @@ pub enum Got {
     Real { neg: bool, re: f64, im: f64 },
     /// parsed, but there is no literal where the spelling was written
     Other(String),
+    /// the parser panicked (C01's observable; reported here too because the spelling is a numeric literal)
+    Panic(String),
 }
 
 fn expr_got(e: &Expression) -> Got {
@@ -93,9 +95,14 @@ fn qubit_got(q: Option<&Qubit>) -> Got {
 
 /// Parse `text` and extract the operand at position `name`.
 pub fn observe(name: &str, text: &str) -> Got {
-    let program = match Program::from_str(text) {
-        Ok(p) => p,
-        Err(_) => return Got::Err,
+    let parsed = std::panic::catch_unwind(|| Program::from_str(text));
+    let program = match parsed {
+        Ok(Ok(p)) => p,
+        Ok(Err(_)) => return Got::Err,
+        Err(e) => {
+            let msg = e.downcast_ref::<&str>().map(|x| x.to_string()).or_else(|| e.downcast_ref::<String>().cloned()).unwrap_or_default();
+            return Got::Panic(msg);
+        }
     };
     let instrs = program.to_instructions();
     let Some(first) = instrs.first() else { return Got::Other("empty program".into()) };
@@ -259,6 +266,7 @@ fn nearest_f64(mant: &str, e10: i64) -> f64 {
 fn allowed(dom: &str, imag: bool, sign: &str, is_float: bool, mant: &str, e10: i64, got: &Got) -> Result<(), String> {
     match got {
         Got::Err => Ok(()),
+        Got::Panic(msg) => Err(format!("the parser panicked: {msg}")),
         Got::Other(what) => Err(format!("parsing succeeded but the operand is not a literal: {what}")),
         Got::Int(v) => {
             if is_float {
@@ -512,7 +520,7 @@ fn f64_digits(v: f64) -> (Vec<String>, i64) {
 fn got_json(g: &Got) -> Value {
     match g {
         Got::Err => json!({"t": "err"}),
-        Got::Other(_) => json!({"t": "other"}),
+        Got::Other(_) | Got::Panic(_) => json!({"t": "other"}),
         Got::Int(v) => json!({"t": "int", "neg": *v < 0,
                                "mag": v.unsigned_abs().to_string().chars().map(|c| c.to_string()).collect::<Vec<_>>()}),
         Got::Real { neg, re, im } => {
@@ -729,7 +737,16 @@ fn stress_spellings(r: &mut impl Rng, n: u64) -> Vec<String> {
             t.push_str(&e.abs().to_string());
         }
         if r.gen_bool(0.2) {
-            t = sprinkle(r, &t, 0.05).replace("._", ".").replace("e_-", "e-").replace("E_-", "E-").replace("e_+", "e+").replace("E_+", "E+");
+            // separators anywhere the grammar allows them: not right after the point, not between e and its sign
+            t = sprinkle(r, &t, 0.05);
+            while t.contains("._") {
+                t = t.replace("._", ".");
+            }
+            for (a, b) in [("e_", "e"), ("E_", "E")] {
+                while t.contains(a) {
+                    t = t.replace(a, b);
+                }
+            }
         }
         out.push(t);
     }
